@@ -266,22 +266,7 @@ class CellWorld:
             self.stats['c02_probes_not_fitting'] += 1
 
     def snapshot(self):
-        pre = Pre()
-        pre.apps = {
-            a.name: dict(server=a.server, identity=a.identity,
-                         blacklisted=a.blacklisted, renew=a.renew,
-                         evicted=a.evicted, unschedule=a.unschedule,
-                         expiry=a.placement_expiry, lease=a.lease,
-                         group=a.identity_group)
-            for a in self.cell.apps.values()}
-        pre.servers = {
-            n: dict(state=s.state, since=s.get_state()[1],
-                    apps=list(s.apps), valid_until=s.valid_until)
-            for n, s in self.cell.members().items()}
-        pre.groups = {g: grp.count for g, grp in
-                      self.cell.identity_groups.items()}
-        pre.now_L = CLOCK.L
-        return pre
+        return snapshot_cell(self.cell)
 
     def cycle(self):
         del _QUEUES[:]
@@ -376,6 +361,24 @@ class CellWorld:
     def canon(self):
         return (canon_cell(self.cell, lambda n: self.tmpl[n]),
                 tuple(sorted(self.alloc_variant.items())), CLOCK.L)
+
+
+def snapshot_cell(cell):
+    pre = Pre()
+    pre.apps = {
+        a.name: dict(server=a.server, identity=a.identity,
+                     blacklisted=a.blacklisted, renew=a.renew,
+                     evicted=a.evicted, unschedule=a.unschedule,
+                     expiry=a.placement_expiry, lease=a.lease,
+                     group=a.identity_group)
+        for a in cell.apps.values()}
+    pre.servers = {
+        n: dict(state=s.state, since=s.get_state()[1],
+                apps=list(s.apps), valid_until=s.valid_until)
+        for n, s in cell.members().items()}
+    pre.groups = {g: grp.count for g, grp in cell.identity_groups.items()}
+    pre.now_L = CLOCK.L
+    return pre
 
 
 def _seq(name):
